@@ -366,7 +366,26 @@ def _seq_eq(eng, m, args, fr, dty):
     try:
         e = seq_eq(eng, args[0], args[1], fr)
     except Unsupported:
-        return NotImplemented
+        # elements of a user type: compare lengths, then element-wise with the type's own PartialEq (from MIR) if it has
+        # one, structurally otherwise (what derive(PartialEq) does)
+        mm = re.match(r'^<(?:std::vec::)?Vec<(.*)> as PartialEq|^<&?\[(.*?)(?:; \d+)?\] as PartialEq', m.group(0))
+        if not mm:
+            return NotImplemented
+        elty = mm.group(1) or mm.group(2)
+        xa, xb = items_of(eng, args[0], fr), items_of(eng, args[1], fr)
+        if len(xa) != len(xb):
+            e = z3.BoolVal(False)
+        else:
+            from .models_last import struct_eq
+            name = '<%s as PartialEq>::eq' % elty
+            has = eng.resolve(name) is not None
+            parts = []
+            for p, q in zip(xa, xb):
+                if has:
+                    parts.append(eng.do_call(name, [Ref(Cell(p)), Ref(Cell(q))], fr, None).e)
+                else:
+                    parts.append(struct_eq(eng, p, q, fr))
+            e = z3.And(*parts) if parts else z3.BoolVal(True)
     ne = m.group(0).endswith('::ne')
     return Bool(z3.Not(e) if ne else e)
 
@@ -435,7 +454,7 @@ def _str_chars(eng, m, args, fr, dty):
     return IterV([Cell(Int(z3.ZeroExt(24, x.e), 32, False)) for x in items], owned=True)
 
 
-ITER = r'(?:std::slice::Iter(?:Mut)?<.*>|std::vec::IntoIter<.*>|std::vec::Drain<.*>|Rev<.*>|Map<.*>|Enumerate<.*>|Copied<.*>|Cloned<.*>|Skip<.*>|Take<.*>|Zip<.*>|Chars<.*>|std::str::Chars<.*>|std::str::Bytes<.*>|Bytes<.*>|Peekable<.*>|Filter<.*>|Chain<.*>|std::array::IntoIter<.*>|StepBy<.*>)'
+ITER = r'(?:std::slice::Iter(?:Mut)?<.*>|std::vec::IntoIter<.*>|std::vec::Drain<.*>|Rev<.*>|Map<.*>|Enumerate<.*>|Copied<.*>|Cloned<.*>|Skip<.*>|Take<.*>|Zip<.*>|Chars<.*>|std::str::Chars<.*>|std::str::Bytes<.*>|Bytes<.*>|Peekable<.*>|Filter<.*>|Chain<.*>|std::array::IntoIter<.*>|StepBy<.*>|std::collections::(?:hash_map|hash_set|btree_map|btree_set)::\w+<.*>|FilterMap<.*>|SkipWhile<.*>|TakeWhile<.*>|Flatten<.*>|FlatMap<.*>)'
 
 
 @model(r'^<' + ITER + r' as IntoIterator>::into_iter$')
@@ -447,21 +466,77 @@ def _iter_into_iter(eng, m, args, fr, dty):
 def _iter_rev(eng, m, args, fr, dty):
     it = args[0]
     if it.adapters:
-        raise Unsupported('rev after adapters')
+        it = materialise(eng, it, fr)
     n = IterV(list(reversed(it.elems[it.pos:])), it.owned)
     return n
 
 
-@model(r'^<' + ITER + r' as Iterator>::(map|enumerate|copied|cloned|skip|take|filter|peekable|zip|chain|step_by)(::<.*>)?$')
+@model(r'^<' + ITER + r' as Iterator>::(map|enumerate|copied|cloned|skip|take|filter|filter_map|flat_map|flatten|peekable|zip|chain|step_by|take_while|skip_while|map_while|inspect|fuse|by_ref)(::<.*>)?$')
 def _iter_adapt(eng, m, args, fr, dty):
     it = args[0]
     op = m.group(1)
     if not isinstance(it, IterV):
         return NotImplemented
+    if it.adapters and (op in ('skip', 'take', 'chain', 'step_by') or (op == 'enumerate' and any(a[0] in ('filter', 'enumerate') for a in it.adapters))):
+        it = materialise(eng, it, fr)
+    if op == 'chain' and isinstance(args[1], IterV) and args[1].adapters:
+        args = [args[0], materialise(eng, args[1], fr)] + list(args[2:])
     if op == 'map':
         it.adapters.append(('map', args[1]))
     elif op == 'filter':
         it.adapters.append(('filter', args[1]))
+    elif op == 'filter_map':
+        it.adapters.append(('filter_map', args[1]))
+    elif op in ('fuse', 'by_ref'):
+        pass
+    elif op in ('take_while', 'skip_while', 'map_while'):
+        # evaluated now, in element order
+        src_ = materialise(eng, it, fr) if it.adapters else it
+        out = []
+        skipping = (op == 'skip_while')
+        while True:
+            v = iter_next(eng, src_, fr)
+            if v is None:
+                break
+            if op == 'map_while':
+                r = eng.call_closure(args[1], [v])
+                if r.variant == 'None':
+                    break
+                out.append(Cell(r.fields[0]))
+                continue
+            if op == 'take_while':
+                if not eng.branch_bool(eng.call_closure(args[1], [Ref(Cell(v))]).e):
+                    break
+                out.append(Cell(v))
+            else:
+                if skipping and eng.branch_bool(eng.call_closure(args[1], [Ref(Cell(v))]).e):
+                    continue
+                skipping = False
+                out.append(Cell(v))
+        return IterV(out, owned=True)
+    elif op in ('flat_map', 'flatten'):
+        # evaluated now: every element (mapped by the closure for flat_map) is itself iterated to the end
+        outer = materialise(eng, it, fr) if it.adapters else it
+        out = []
+        while True:
+            v = iter_next(eng, outer, fr)
+            if v is None:
+                break
+            if op == 'flat_map':
+                v = eng.call_closure(args[1], [v])
+            inner = v
+            if isinstance(inner, Enum) and inner.variant in ('Some', 'None', 'Ok', 'Err'):
+                if inner.variant in ('Some', 'Ok'):
+                    out.append(Cell(inner.fields[0]))
+                continue
+            if not isinstance(inner, IterV):
+                inner = eng.do_call('<%s as IntoIterator>::into_iter' % ('Vec<T>' if isinstance(eng.deref(inner, fr), Vec) else 'T'), [inner], fr, None)
+            while True:
+                w = iter_next(eng, inner, fr)
+                if w is None:
+                    break
+                out.append(Cell(w))
+        return IterV(out, owned=True)
     elif op == 'enumerate':
         it.adapters.append(('enumerate',))
     elif op in ('copied', 'cloned'):
@@ -494,6 +569,18 @@ def _iter_adapt(eng, m, args, fr, dty):
     return it
 
 
+def materialise(eng, it, fr):
+    """evaluate a lazily adapted iterator now (closures run in element order, as they would lazily) and restart
+    from the results; used when a further adapter needs positions of the adapted sequence"""
+    out = []
+    while True:
+        v = iter_next(eng, it, fr)
+        if v is None:
+            break
+        out.append(Cell(v))
+    return IterV(out, owned=True)
+
+
 def iter_next(eng, it, fr):
     while True:
         if it.pos >= len(it.elems):
@@ -510,6 +597,12 @@ def iter_next(eng, it, fr):
                 if not eng.branch_bool(keep.e):
                     skip = True
                     break
+            elif ad[0] == 'filter_map':
+                r = eng.call_closure(ad[1], [v])
+                if r.variant == 'None':
+                    skip = True
+                    break
+                v = r.fields[0]
             elif ad[0] == 'enumerate':
                 v = Tup(mkint(it.count, 'usize'), v)
             elif ad[0] == 'copied':
@@ -588,11 +681,25 @@ def _collect(eng, m, args, fr, dty):
                 return r
             out.append(r.fields[0])
         return Some(Vec(out))
-    if target.startswith(('HashSet<', 'std::collections::HashSet<', 'BTreeSet<')):
-        from .models_hash import MapV
+    if target.startswith(('HashSet<', 'std::collections::HashSet<', 'BTreeSet<', 'std::collections::BTreeSet<')):
+        from .models_hash import MapV, lookup
         mp = MapV(is_set=True)
         for x in vals:
-            mp.entries.append((eng.deref(x, fr), Cell(UNIT)))
+            k = eng.deref(x, fr)
+            if lookup(eng, mp, k, fr) is None:
+                mp.entries.append((k, Cell(UNIT)))
+        return mp
+    if target.startswith(('HashMap<', 'std::collections::HashMap<', 'BTreeMap<', 'std::collections::BTreeMap<')):
+        from .models_hash import MapV, lookup
+        mp = MapV()
+        for x in vals:
+            x = eng.deref(x, fr) if isinstance(x, Ref) else x
+            k, v = x.fields
+            i = lookup(eng, mp, k, fr)
+            if i is None:
+                mp.entries.append((k, Cell(v)))
+            else:
+                mp.entries[i] = (mp.entries[i][0], Cell(v))
         return mp
     if target.startswith(('Vec<()>',)):
         return Vec(vals)
@@ -602,7 +709,7 @@ def _collect(eng, m, args, fr, dty):
     raise Unsupported('collect into ' + target)
 
 
-@model(r'^<' + ITER + r' as Iterator>::(any|all|position|find|count|fold|for_each|last|sum|max|min|find_map|nth)(::<.*>)?$')
+@model(r'^<' + ITER + r' as Iterator>::(any|all|position|find|count|fold|for_each|last|sum|max|min|find_map|nth|partition|unzip)(::<.*>)?$')
 def _iter_consume(eng, m, args, fr, dty):
     it = args[0] if isinstance(args[0], IterV) else eng.deref(args[0], fr)
     if not isinstance(it, IterV):
@@ -671,6 +778,38 @@ def _iter_consume(eng, m, args, fr, dty):
             if v is None:
                 return UNIT
             eng.call_closure(args[1], [v])
+    if op == 'partition':
+        yes, no = [], []
+        for v in drain(eng, it, fr):
+            (yes if eng.branch_bool(eng.call_closure(args[1], [Ref(Cell(v))]).e) else no).append(v)
+        return Tup(Vec(yes), Vec(no))
+    if op == 'unzip':
+        a_, b_ = [], []
+        for v in drain(eng, it, fr):
+            a_.append(v.fields[0]); b_.append(v.fields[1])
+        return Tup(Vec(a_), Vec(b_))
+    if op == 'sum':
+        ty = (m.group(2) or '')[3:-1]
+        vals = [eng.deref(v, fr) if isinstance(v, Ref) else v for v in drain(eng, it, fr)]
+        if ty not in INT_TYPES:
+            return NotImplemented
+        acc = mkint(0, ty)
+        for v in vals:
+            acc = eng.binop('Add', acc, v)
+        return acc
+    if op in ('max', 'min'):
+        vals = [eng.deref(v, fr) if isinstance(v, Ref) else v for v in drain(eng, it, fr)]
+        if not vals:
+            return NONE()
+        if not all(isinstance(v, Int) for v in vals):
+            return NotImplemented
+        best = vals[0]
+        for v in vals[1:]:
+            gt = eng.binop('Gt' if op == 'max' else 'Lt', v, best)
+            # max returns the last of equal maxima, min the first: ties do not matter for integers
+            if eng.branch_bool(gt.e):
+                best = v
+        return Some(best)
     return NotImplemented
 
 
@@ -836,3 +975,59 @@ def _trim(eng, m, args, fr, dty):
         while b > a and eng.branch_bool(ws(items[b - 1])):
             b -= 1
     return Slice(s.ref, s.start + a, b - a)
+
+
+def _ordering_less(eng, r):
+    """is an Ordering value Less? (forks if it depends on symbolic data)"""
+    return r.variant == 'Less'
+
+
+@model(r'^(?:std|core|alloc)::slice::<impl \[(.*)\]>::(sort_by|sort_unstable_by|sort|sort_unstable|sort_by_key|sort_unstable_by_key|sort_by_cached_key)(::<.*>)?$|^Vec::<(.*)>::(sort_by|sort|sort_by_key|dedup)(::<.*>)?$')
+def _slice_sort(eng, m, args, fr, dty):
+    """stable insertion sort driven by the real comparator (closure, or the element type's Ord::cmp)"""
+    v = args[0]
+    op = m.group(2) or m.group(5)
+    elty = m.group(1) or m.group(4)
+    if isinstance(v, Slice):
+        base = eng.deref(v.ref, fr)
+        lo, hi = v.start, v.start + v.length
+    else:
+        base = the_vec(eng, v, fr)
+        lo, hi = 0, len(base.items)
+    items = base.items[lo:hi]
+    if op == 'dedup':
+        raise Unsupported('Vec::dedup')
+
+    def less(a, b):
+        if op in ('sort_by', 'sort_unstable_by'):
+            r = eng.call_closure(args[1], [Ref(Cell(a)), Ref(Cell(b))])
+        elif op in ('sort_by_key', 'sort_unstable_by_key', 'sort_by_cached_key'):
+            ka = eng.call_closure(args[1], [Ref(Cell(a))])
+            kb = eng.call_closure(args[1], [Ref(Cell(b))])
+            r = _cmp_values(eng, ka, kb, fr)
+        else:
+            r = _cmp_values(eng, a, b, fr, elty)
+        return r.variant == 'Less'
+    out = []
+    for x in items:
+        k = len(out)
+        while k > 0 and less(x, out[k - 1]):
+            k -= 1
+        out.insert(k, x)
+    base.items[lo:hi] = out
+    return UNIT
+
+
+def _cmp_values(eng, a, b, fr, ty=None):
+    if isinstance(a, Int) and isinstance(b, Int):
+        return eng.binop('Cmp', a, b)
+    if isinstance(a, (Vec, Slice)) and isinstance(b, (Vec, Slice)):
+        ia, ib = items_of(eng, a, fr), items_of(eng, b, fr)
+        for x, y in zip(ia, ib):
+            r = eng.binop('Cmp', x, y)
+            if r.variant != 'Equal':
+                return r
+        return eng.binop('Cmp', mkint(len(ia), 'usize'), mkint(len(ib), 'usize'))
+    if ty:
+        return eng.do_call('<%s as Ord>::cmp' % ty, [Ref(Cell(a)), Ref(Cell(b))], fr, None)
+    raise Unsupported('ordering of %r / %r' % (a, b))
